@@ -62,6 +62,19 @@ TripleBad(xy, yz, xz) ==
     \cup OB((xy.eq /\ yz.lt) => xz.lt,     "Cong_lt_left")   \* equal objects order alike
     \cup OB((xy.lt /\ yz.eq) => xz.lt,     "Cong_lt_right")
 
+\* All triples of an n x n matrix of observations at once: TRUE iff TripleBad is empty for
+\* every (x, y, z).  Same meaning as the quantified form (law TriplesOKLaw in OrderLaws_Laws),
+\* written with the sets L[x] = {z : x < z}, E[x] = {z : x == z} so that TLC does n^2 subset
+\* tests instead of n^3 record evaluations.
+TriplesOK(M, n) ==
+    IF \E x, y \in 1..n : M[x][y].bad
+    THEN \A x, y, z \in 1..n : TripleBad(M[x][y], M[y][z], M[x][z]) = {}
+    ELSE LET L == [x \in 1..n |-> {z \in 1..n : M[x][z].lt}]
+             E == [x \in 1..n |-> {z \in 1..n : M[x][z].eq}]
+         IN  \A x \in 1..n :
+                /\ \A y \in L[x] : L[y] \subseteq L[x] /\ E[y] \subseteq L[x]     \* Trans_lt, Cong_lt_right
+                /\ \A y \in E[x] : E[y] \subseteq E[x] /\ L[y] \subseteq L[x]     \* Trans_eq, Cong_lt_left
+
 (* ---- containers: what sorted(), set() and dict lookups did with n objects ----
    M[i][j] is the observation of (object i, object j).                          *)
 \* perm: the order sorted() produced, as a sequence of object indices
